@@ -97,6 +97,7 @@ class Registry:
         self.static_refs = {}
         self.variants = {}              # (qual, receiver class) -> Contract (constructors only)
         self.immutable_fields = set()   # field keys written only by constructors (checked by a frame scan)
+        self.interface_calls = {}   # (caller qual, callee qual) -> qual of the interface contract used at that site
         self.ghost_calls = {}    # (function qual, callee attribute name) -> {"asserts": [...], "assign": [...]}
         self.variant = None
 
@@ -157,6 +158,11 @@ class Registry:
     def axiom(self, formula, note):
         self.axioms.append(formula)
         self.axiom_notes.append(note)
+
+    def interface_call(self, caller_qual, callee_qual, contract_qual):
+        """Inside ``caller_qual`` a call that resolves to ``callee_qual`` is checked against the contract registered as
+        ``contract_qual`` (the abstract interface method's contract: the receiver may be a user-defined implementation)."""
+        self.interface_calls[(caller_qual, callee_qual)] = contract_qual
 
     def ghost_before_call(self, qual, callee, asserts=(), assign=()):
         self.ghost_calls[(qual, callee)] = {"asserts": list(asserts), "assign": list(assign)}
